@@ -392,7 +392,7 @@ fn rows_control_binary() -> Vec<Row> {
         values = [true],
         set = |s, x| s.set_essential(x), clear_set = |s| s.set_essential(false), clear_want = "false",
         get = |s| s.essential(), want = |x| x));
-    v.push(optstr_row!(cbin, "description", "Description", "old short\nold long text", ["a short description", "short line\nlong text line 1\n.\nlong text line 2"], set_description, description));
+    v.push(optstr_row!(cbin, "description", "Description", "old short\nold long 1\nold long 2\nold long 3", ["a short description", "short line\nlong text line 1\n.\nlong text line 2"], set_description, description));
     v.push(cbin!("homepage", "Homepage", "http://old.example.net/", clear = false,
         values = ["https://example.com/".to_string(), "https://example.org/path?q=1".to_string()],
         set = |s, x| s.set_homepage(&x.parse::<url::Url>().unwrap()), clear_set = |_s| (), clear_want = "None",
@@ -480,7 +480,7 @@ fn rows_apt_package() -> Vec<Row> {
         values = [Priority::Optional, Priority::Standard],
         set = |s, x| s.set_priority(x), clear_set = |_s| (), clear_want = "None",
         get = |s| s.priority(), want = |x| Some(x)));
-    v.push(str_row!(apkg, "description", "Description", "old short\nold long text", ["a short description", "short line\nlong text line 1\n.\nlong text line 2"], set_description, description));
+    v.push(str_row!(apkg, "description", "Description", "old short\nold long 1\nold long 2\nold long 3", ["a short description", "short line\nlong text line 1\n.\nlong text line 2"], set_description, description));
     v.push(apkg!("homepage", "Homepage", "http://old.example.net/", clear = false,
         values = ["https://example.com/".to_string(), "https://example.org/path?q=1".to_string()],
         set = |s, x| s.set_homepage(&x.parse::<url::Url>().unwrap()), clear_set = |_s| (), clear_want = "None",
@@ -647,8 +647,8 @@ fn rows_dep3() -> Vec<Row> {
         set = |s, x| s.set_vendor_bug("Debian", &x), clear_set = |_s| (), clear_want = "[]",
         get = |s| s.vendor_bugs("Debian").collect::<Vec<_>>(), want = |x| vec![x]));
     // these two write Description: another base
-    v.push(str_row!(d3_alt, "description", "Description", "old short\nold long text", ["Fix the frobnicator", "Use FHS paths"], set_description, description));
-    v.push(str_row!(d3_alt, "long_description", "Description", "old short\nold long text", ["Upstream is not interested.", "line 1\nline 2"], set_long_description, long_description));
+    v.push(str_row!(d3_alt, "description", "Description", "old short\nold long 1\nold long 2\nold long 3", ["Fix the frobnicator", "Use FHS paths"], set_description, description));
+    v.push(str_row!(d3_alt, "long_description", "Description", "old short\nold long 1\nold long 2\nold long 3", ["Upstream is not interested.", "line 1\nline 2"], set_long_description, long_description));
     v
 }
 
